@@ -350,7 +350,7 @@ def boundary_case(rng, n=None):
     return [sample], {"merge": ["percent_%d" % n]}, ["--merge", "percent_%d" % n]
 
 
-def dkr_case(rng):
+def dkr_case(rng, full=0):
     """objects whose keys are covered by one expression, by several only jointly, or by none, with two or three
     --dict-keys-regex expressions: the documented mapping is one anchored pattern per expression"""
     pats = rng.sample([r"\d+", r"k\d", r"[a-z]+", r"x|y"], k=rng.choice([2, 2, 3]))
@@ -359,6 +359,10 @@ def dkr_case(rng):
               "none": {"A-1": 1, "B-2": 2}}
     keys = list(sample)
     rng.shuffle(keys)
+    if full:
+        # the whole table under two fixed expression lists: every jointly-covered object is there
+        pats = [[r"\d+", r"[a-z]+"], [r"k\d", r"x|y", r"[a-z]+"]][full - 1]
+        return [sample], {"dkr": pats}, ["--dkr"] + pats
     return [{k: sample[k] for k in keys[:rng.randint(3, 7)]}], {"dkr": pats}, ["--dkr"] + pats
 
 
@@ -426,6 +430,14 @@ def falsify(ctx):
         for i in range(len(BOUNDARY_NS) + ctx.n(12, 120)):
             d = os.path.join(root, "b%d" % i)
             os.makedirs(d)
+            if i < 2:
+                d3 = os.path.join(root, "k%d" % i)
+                os.makedirs(d3)
+                samples, opts, oargv = dkr_case(rng, full=i + 1)
+                clitools.write_files(d3, {"b.json": samples})
+                full = ["-m", "Root", "b.json"] + oargv
+                jobs.append((full, d3, ctx.repo))
+                metas.append((samples, {"b.json": samples}, full, opts, False, "boundary", d3))
             if i < len(REPEATED_KINDS):
                 # every repeated-kind merge list, each run (next to the boundary case of the same index)
                 d2 = os.path.join(root, "r%d" % i)
